@@ -22,6 +22,7 @@ func cmdGen2(args []string) {
 	unpack := fs.Bool("u", false, "-u")
 	object := fs.Bool("o", false, "-o")
 	n := fs.Int("n", 2, "repetitions")
+	seq := fs.String("seq", "", "comma separated option sets to generate one after the other in this process: plain,u,o,ou (overrides -u/-o/-n)")
 	dir := fs.String("dir", ".", "scratch dir")
 	fs.Parse(args)
 	b, err := os.ReadFile(*file)
@@ -29,10 +30,26 @@ func cmdGen2(args []string) {
 		die("%v", err)
 	}
 	var hashes []string
-	for i := 0; i < *n; i++ {
+	var opts []string
+	if *seq != "" {
+		opts = splitComma(*seq)
+	} else {
+		o := "plain"
+		if *unpack && *object {
+			o = "ou"
+		} else if *unpack {
+			o = "u"
+		} else if *object {
+			o = "o"
+		}
+		for i := 0; i < *n; i++ {
+			opts = append(opts, o)
+		}
+	}
+	for i, opt := range opts {
 		resetFlags()
-		utils.PackFlags = !*unpack
-		utils.ObjectMode = *object
+		utils.PackFlags = !(opt == "u" || opt == "ou")
+		utils.ObjectMode = opt == "o" || opt == "ou"
 		out := filepath.Join(*dir, fmt.Sprintf("gen2-%d.out", i))
 		var gerr error
 		_, perr, _ := capture(func() {
@@ -43,12 +60,12 @@ func cmdGen2(args []string) {
 			}
 		})
 		if perr != nil || gerr != nil {
-			hashes = append(hashes, fmt.Sprintf("error:%v%v", perr, gerr))
+			hashes = append(hashes, opt+" "+fmt.Sprintf("error:%v%v", perr, gerr))
 			continue
 		}
 		ob, _ := os.ReadFile(out)
 		h := sha256.Sum256(ob)
-		hashes = append(hashes, hex.EncodeToString(h[:8]))
+		hashes = append(hashes, opt+" "+hex.EncodeToString(h[:8]))
 		os.Remove(out)
 	}
 	for _, h := range hashes {
